@@ -123,7 +123,17 @@ class Gen:
     def unsub_cmd(self, k, sep=":"):
         rng = self.rng
         have = self.subs[k]
-        ps = uniq([rng.choice(have) if (have and rng.random() < 0.85) else self.subpat(k) for _ in range(rng.choice([1, 1, 2]))])
+        def fixed(x):      # the key the server stores a subscription under (AdjustStringPrefix with the default prefix)
+            return x[1:] if x.startswith("/") else "*/*/" + x
+        ps = []
+        for _ in range(rng.choice([1, 1, 2])):
+            c = rng.choice(have) if (have and rng.random() < 0.85) else self.subpat(k)
+            # premise shared with C04: one spelling per subscription path -- REMOVEPARAMETERS finds a subscription by the
+            # parameter NAME it was made under, the model by its path, so another spelling of a held path is not generated
+            if c not in have and fixed(c) in {fixed(h) for h in have}:
+                continue
+            ps.append(c)
+        ps = uniq(ps) or [rng.choice(have) if have else "zz"]
         for p in ps:
             if p in have:
                 have.remove(p)
@@ -362,6 +372,8 @@ class CHECK(vlib.Check):
                 "extracted model reads which repairs the sources at hand contain from translator flags c_c06_*_as_found",
                 "well-formed histories: a session arrives under a (host, session id) pair no attached session has; fewer than 2^31-1 "
                 "subscription strings are added in total (uint32 counts / int32 deltas of the subscriber tables)",
+                "one spelling per subscription path (as C04): REMOVEPARAMETERS finds a subscription by the parameter name it was made under, "
+                "the model by its path; the generators never unsubscribe a held path through another spelling",
                 "as_if_never_partial only: no session is granted PR_PRIVILEGE_KICK (a privileged kick is a visible effect by design)",
                 "C03: only complete Messages are dispatched, so a cut after any byte prefix is a cut between commands (exercised byte by byte by the harness)",
                 "memory safety and object lifetime of the C++ (observed by ASan/UBSan in the harness only)"]
